@@ -585,3 +585,62 @@ def verdict(project, R, report):
                    and use(verdict_errors, project, R, report) and use(verdict_deprecated, project, R, report)
                    and use(verdict_noinfo, project, R, report) and use(verdict_unused, project, R, report),
                    compliant_spec(report) == verdict_spec(project, R))
+
+
+# ---- C06: cross-consistency of the classification (lemmas over the spec functions only) ------------------------------
+@lemma(types={"x": "str"}, serves=["C06"], name="strip-add-plus")
+def plus_lemma(x):
+    return (strip_plus(add_plus(x)) == strip_plus(x)
+            and implies(not strip_plus(x).endswith("+"), x == strip_plus(x) or x == add_plus(strip_plus(x)))
+            and implies(not x.endswith("+"), strip_plus(x) == x and add_plus(x) == x + "+" and strip_plus(add_plus(x)) == x))
+
+
+@lemma(types={"used": "set[str]", "provided": "set[str]", "k": "str"}, serves=["C06"], name="missing-vs-unused-consistent")
+def c06_consistent(used, provided, k):
+    """A used identifier k whose '+'-less form l is provided (l a well-formed identifier, i.e. not itself ending in '+')
+    is not missing, and l is not unused -- the two classifications never contradict each other."""
+    l = strip_plus(k)
+    missing_k = k not in provided and strip_plus(k) not in provided
+    unused_l = l in provided and l not in used and add_plus(l) not in used
+    return implies(k in used and l in provided and not l.endswith("+"), not missing_k and not unused_l)
+
+
+@lemma(types={"used": "set[str]", "provided": "set[str]", "k": "str"}, serves=["C06"], name="missing-means-not-provided")
+def c06_missing(used, provided, k):
+    missing_k = k not in provided and strip_plus(k) not in provided
+    return implies(missing_k, forall(lambda l: implies(l in provided, l != k and l != strip_plus(k)), "str"))
+
+
+@lemma(types={"used": "set[str]", "provided": "set[str]", "l": "str"}, serves=["C06"], name="unused-means-not-used")
+def c06_unused(used, provided, l):
+    unused_l = l in provided and l not in used and add_plus(l) not in used
+    return implies(unused_l, forall(lambda k: implies(k in used, k != l and k != add_plus(l)), "str"))
+
+
+# ---- C06: "bad iff neither on the SPDX licence/exception lists nor a LicenseRef-" --------------------------------------
+from pyvc.api import in_lang
+spdx_ids = ufun("spdx_ids", [], "set[str]")
+
+
+@spec
+def is_licenseref_id(s):
+    return in_lang(r"LicenseRef-[a-zA-Z0-9\-.]+", s)
+
+
+@spec
+def license_map_invariant(project):
+    """How Project builds license_map (LICENSE_MAP + EXCEPTION_MAP, plus the LicenseRef- files found in LICENSES/ whose
+    name does not contain 'Unknown'): established by Project._default_license_map / _find_licenses (assumed here)."""
+    return forall(lambda k: (k in project.license_map)
+                  == (k in spdx_ids() or (is_licenseref_id(k) and "Unknown" not in k and k in project.licenses)), "str")
+
+
+@lemma(types={"project": "Project", "k": "str"}, serves=["C06"], name="bad-iff-neither-spdx-nor-licenseref")
+def c06_bad(project, k):
+    statement_bad = not (k in spdx_ids() or strip_plus(k) in spdx_ids() or is_licenseref_id(k))
+    return implies(license_map_invariant(project), is_bad(project, k) == statement_bad)
+
+
+def kf_licenseref_bad(k):
+    """known finding: a LicenseRef- identifier without a registered LICENSES/ file (or containing 'Unknown') is classed bad"""
+    return is_licenseref_id(k) or is_licenseref_id(strip_plus(k))
